@@ -20,6 +20,7 @@ def stringWriterReadsExclusive : Bool := false
 def logrFieldGuarded : Bool := false
 def multipleWritersSnapshotUnderLock : Bool := false
 def jsonSettersExclusive : Bool := false
+def compositeMembersUnderWriteLock : Bool := false
 end GoUtils.Generated.Logs
 `
 
@@ -95,6 +96,23 @@ func extractLogs(root string) (string, map[string]any, error) {
 		return "", nil, err
 	}
 	jsonOK := strings.HasPrefix(js1, "{ l.mu.Lock() defer l.mu.Unlock()") && strings.HasPrefix(js2, "{ l.mu.Lock() defer l.mu.Unlock()")
+	// composite loggers: the member list is read, iterated and extended under the WRITE lock
+	compOK := true
+	for _, m := range []string{"Log", "LogError", "SetLogSource", "Append"} {
+		s, err := body("MultipleLogger", m)
+		if err != nil {
+			return "", nil, err
+		}
+		if !strings.HasPrefix(s, "{ c.mu.Lock() defer c.mu.Unlock() ") || strings.Contains(s, "RLock") {
+			compOK = false
+		}
+		if m == "Append" && s != "{ c.mu.Lock() defer c.mu.Unlock() c.loggers = append(c.loggers, l...) return nil }" {
+			compOK = false
+		}
+	}
+	if s, err := body("MultipleLoggerWithLoggerSource", "Append"); err != nil || s != "{ c.mu.Lock() defer c.mu.Unlock() c.loggers = append(c.loggers, l...) return c.setLoggerSource(c.loggerSource) }" {
+		compOK = false
+	}
 	var b strings.Builder
 	b.WriteString("namespace GoUtils.Generated.Logs\ndef ok : Bool := true\n")
 	fmt.Fprintf(&b, "/-- StringWriter.Write appends to the builder under the WRITE lock (false: under the read lock) -/\ndef stringWriterWriteExclusive : Bool := %s\n", leanBool(writeExclusive))
@@ -102,6 +120,7 @@ func extractLogs(root string) (string, map[string]any, error) {
 	fmt.Fprintf(&b, "/-- the logr wrapper's logger field is replaced under Lock and read through currentLogger() under RLock only -/\ndef logrFieldGuarded : Bool := %s\n", leanBool(logrOK))
 	fmt.Fprintf(&b, "/-- the composite writer snapshots its member list under RLock and appends under Lock -/\ndef multipleWritersSnapshotUnderLock : Bool := %s\n", leanBool(multiOK))
 	fmt.Fprintf(&b, "/-- the JSON logger's setters take the write lock -/\ndef jsonSettersExclusive : Bool := %s\n", leanBool(jsonOK))
+	fmt.Fprintf(&b, "/-- composite loggers read, iterate and extend their member list under the write lock only -/\ndef compositeMembersUnderWriteLock : Bool := %s\n", leanBool(compOK))
 	b.WriteString("end GoUtils.Generated.Logs\n")
 	return b.String(), facts, nil
 }
